@@ -21,7 +21,7 @@ def _alarm(signum, frame):
     raise _Timeout()
 
 
-def oracle(b: bytes, timeout_s=20):
+def oracle(b: bytes, timeout_s=10):
     """None when the property holds on b, else a description"""
     signal.signal(signal.SIGALRM, _alarm)
     signal.setitimer(signal.ITIMER_REAL, timeout_s)
@@ -51,8 +51,17 @@ def oracle(b: bytes, timeout_s=20):
         signal.setitimer(signal.ITIMER_REAL, 0)
 
 
-def shrink(b: bytes) -> bytes:
-    """greedy: cut from the end, then drop leading chunks, while the property still fails"""
+def shrink(b: bytes, budget_s=60) -> bytes:
+    """greedy: cut from the end, then drop leading chunks, while the property still fails (within a time budget;
+    a non-terminating candidate costs its whole time limit, so the limit is short here)"""
+    import time
+    t0 = time.time()
+    full_oracle = globals()["oracle"]
+
+    def oracle(x):  # the module's oracle with a short limit, inside a budget
+        if time.time() - t0 > budget_s:
+            return None
+        return full_oracle(x, timeout_s=3)
     cur = b
     step = max(1, len(cur) // 2)
     while step >= 1:
@@ -95,6 +104,23 @@ def run(ck: vlib.Check):
     if ck.tier == "quick":
         rng.shuffle(cases)
         cases = cases[:150]
+    # size fields that, read as a SIGNED number, point back at an earlier chunk header or at the header itself (a decoder
+    # that rewinds on such a size can be sent round in circles): a header appended to small maps and to one fixture
+    backs = []
+    for _ in range(12):
+        b0, _k = S.gen_wellformed_chk(rng, 3)
+        backs.append(b0)
+    backs += small_fx[:1]
+    for b0 in backs:
+        starts, pos = [], 0
+        for ch in c01.split_chunks(b0):
+            starts.append(pos)
+            pos += len(ch)
+        end = len(b0) + 8
+        for tgt in (starts[:3] + starts[-2:] + [len(b0)]):
+            k = end - tgt
+            cases.insert(0, (b0 + b"JUNK" + (2 ** 32 - k).to_bytes(4, "little"), "back-pointing-size"))
+        cases.insert(0, (b0 + b"JUNK" + (2 ** 32 - 1).to_bytes(4, "little"), "back-pointing-size"))
     for _ in range(n):
         cases.append(S.gen_malformed_chk(rng, small_fx[:1] if rng.random() < 0.02 else []))
     for _ in range(n // 10):
@@ -109,11 +135,16 @@ def run(ck: vlib.Check):
         if b:
             ck.note_case(b.hex())
         if bad:
-            small = shrink(b)
+            hung = "terminate" in bad
+            # a non-terminating input is reported as it is (every shrink candidate would cost its whole time limit)
+            small = b if hung else shrink(b)
             ck.violation(f"{bad} ({label})", {"kind": "stability", "input_hex": small.hex(), "detail": oracle(small),
                                              "label": label}, True)
             break
     ck.extra["input_distribution"] = dist
+    if drv_ok and any("terminate" in v["what"] for v in ck.violations):
+        ck.notes.append("correspondence stage skipped: the implementation does not terminate on an input of this stream")
+        drv_ok = False
     if drv_ok:
         layouts = S.load_layouts()
         sub = [c for c in cases if len(c[0]) < 60000][: (700 if ck.tier == "quick" else 20000)]
